@@ -25,7 +25,7 @@ fn stack_isos(variant: usize) -> (Iso, Iso) {
         0 => (Iso::identity(), Iso::identity()),
         1 => (Iso::identity(), t),
         2 => (g, Iso::identity()),
-        4 | 6 => (Iso::identity(), t),
+        4 | 6 | 7 => (Iso::identity(), t),
         5 => (g, Iso::identity()),
         _ => (g, t),
     }
@@ -37,12 +37,13 @@ fn stack_para(variant: usize) -> Option<(usize, usize, f64)> {
         4 => Some((1, 2, 1.0)),
         5 => Some((0, 5, -0.5)),
         6 => Some((1, 2, 0.5)),
+        7 => Some((1, 2, 1.0)),
         _ => None,
     }
 }
 
 fn variant_name(v: usize) -> &'static str {
-    ["bare", "tool", "base", "base+tool", "para+tool", "base+para", "halfpara+tool"][v]
+    ["bare", "tool", "base", "base+tool", "para+tool", "base+para", "halfpara+tool", "tool+para"][v]
 }
 
 /// limits: 0 none; 1 + 2k: joint k exactly at its upper limit; 2 + 2k: joint k exactly at its lower limit
@@ -71,6 +72,11 @@ fn jac(p: &Parameters, variant: usize, q: &Joints, eps: f64, limits: usize) -> J
         4 | 6 => {
             let (driven, coupled, scaling) = stack_para(variant).unwrap();
             Jacobian::new(&Tool { robot: Arc::new(Parallelogram { robot: Arc::new(robot), scaling, driven, coupled }), tool: to_na(&t) }, q, eps)
+        }
+        // the unusual order: the parallelogram wrapped around a robot that already wears the tool
+        7 => {
+            let (driven, coupled, scaling) = stack_para(7).unwrap();
+            Jacobian::new(&Parallelogram { robot: Arc::new(Tool { robot: Arc::new(robot), tool: to_na(&t) }), scaling, driven, coupled }, q, eps)
         }
         5 => {
             let (driven, coupled, scaling) = stack_para(5).unwrap();
@@ -251,7 +257,7 @@ pub fn run(ctx: &Ctx) -> Report {
     } else {
         [vec![0.4, -2.4], vec![-0.9, 0.5], vec![-1.9, 0.8], vec![0.3, -1.3], vec![0.6, -1.2, 0.05], vec![0.2]]
     };
-    let sizes: Vec<usize> = [robots.len(), 7, EPSS.len(), 13].into_iter().chain(ax.iter().map(|a| a.len())).collect();
+    let sizes: Vec<usize> = [robots.len(), 8, EPSS.len(), 13].into_iter().chain(ax.iter().map(|a| a.len())).collect();
     let n = par::product(&sizes);
     let mut rep = par::run(n, |idx, r| {
         let mut ix = [0usize; 10];
@@ -410,7 +416,7 @@ pub fn run(ctx: &Ctx) -> Report {
         }
     }
     rep.traces_validated = rep.states;
-    rep.rule = "robots R (unconstrained, and constrained with each joint in turn exactly on its upper / lower limit) x stacks {bare, tool, base, base+tool, tool over parallelogram(J2->J3, 1.0 and 0.5), parallelogram(J1->J6, -0.5) over base} x joint lattice (a third of the postures with whole turns added to some joints) (geometric Jacobian condition number < 1e3, else skipped_precondition) x \
+    rep.rule = "robots R (unconstrained, and constrained with each joint in turn exactly on its upper / lower limit) x stacks {bare, tool, base, base+tool, tool over parallelogram(J2->J3, 1.0 and 0.5), parallelogram(J1->J6, -0.5) over base, parallelogram(J2->J3) over tool} x joint lattice (a third of the postures with whole turns added to some joints) (geometric Jacobian condition number < 1e3, else skipped_precondition) x \
                 differencing steps {1e-7,1e-6,1e-5}; the private matrix is read row by row through torques_from_vector(e_k); oracle: geometric Jacobian from \
                 FK_ref axes/origins within eps*reach + 4e-15*reach/eps; J_geo*velocities(X) = X on the 6 basis twists + 2 mixed; torques = J_geo^T F; \
                 isometry/vector/fixed entry points agree, the isometry also written with the negated quaternion and as a product of two rotations beyond a half turn; discontinuity sweep: sign jumps of forward()'s quaternion located by bisection along 54 joint lines, the differencing step straddling each; threshold sweep: every ladder step inside 1e-7..1e-5, joints a ladder magnitude from 0 / +-pi, all 7 stacks; signature = (stack, condition-number decade)".into();
